@@ -20,11 +20,12 @@ const (
 
 // Config describes a simulated cluster.
 type Config struct {
-	Voters    int   // bootstrapped voters n0..n(V-1)
-	Spares    int   // extra nodes started empty (membership runs)
-	BootOne   bool  // only n0 is bootstrapped (docs' way); others start empty
-	SnapAt    int   // recfsm NeedSnapshot threshold (0 = off)
-	SnapNodes []int // if set, only these nodes take local snapshots (the application decides per node)
+	Voters    int    // bootstrapped voters n0..n(V-1)
+	Spares    int    // extra nodes started empty (membership runs)
+	BootOne   bool   // only n0 is bootstrapped (docs' way); others start empty
+	SnapAt    int    // recfsm NeedSnapshot threshold (0 = off)
+	SnapNodes []int  // if set, only these nodes take local snapshots (the application decides per node)
+	HoldFsm   string // state machine calls that take environment time ("restore", "snapshot"): the call blocks until an "fsm" event
 	SnapPad   int
 	Timed     bool // global tick clock (C15-C17)
 	StoreHook bool // storage calls are crash points
@@ -176,6 +177,15 @@ func (c *Cluster) RefusedCommittedChange() *ClientOp {
 	return nil
 }
 
+// FsmGate is a state machine call that is in progress (Config.HoldFsm): the
+// calling goroutine waits, with the node lock released as the library chose,
+// until the environment lets the call finish.
+type FsmGate struct {
+	Node     int
+	Kind     string
+	Released bool
+}
+
 type ArmSpec struct {
 	Skip  int
 	Phase int
@@ -187,7 +197,8 @@ type Cluster struct {
 	Net   *Network
 	B     Budget
 	Ops   []*ClientOp
-	Hist  []string // order of invocations and resolutions: "i3", "r3+", "r3-"
+	Held  []*FsmGate // state machine calls in progress (Config.HoldFsm)
+	Hist  []string   // order of invocations and resolutions: "i3", "r3+", "r3-"
 	Fsm   []FsmCall
 	Armed map[int]*ArmSpec
 	// Blocked[a][b]: messages from a to b (requests and replies) are held.
@@ -205,6 +216,8 @@ type Cluster struct {
 	CrashedAt   string
 	crashDone   bool
 	ctlCrash    bool
+	crashDone2  bool
+	CrashedAt2  string // FileStore: where the second planned crash hit
 	// LogObservers see every append/truncate/discard of every node's log.
 	LogObservers []func(node int, op string, index uint64, entries []*raft.LogEntry)
 	Stagger      bool // election timeouts are staggered per node (timed runs)
@@ -331,6 +344,17 @@ func (c *Cluster) construct(n *Node) {
 		}
 	}
 	n.Fsm = &RecFSM{Node: n.Idx, Inst: n.Insts, Threshold: thr, Pad: c.Cfg.SnapPad, Rec: func(f FsmCall) { c.Fsm = append(c.Fsm, f) }}
+	if c.Cfg.HoldFsm != "" {
+		node := n.Idx
+		n.Fsm.Point = func(kind string) {
+			if !strings.Contains(c.Cfg.HoldFsm, kind) || vsched.Cur() == nil {
+				return
+			}
+			g := &FsmGate{Node: node, Kind: kind}
+			c.Held = append(c.Held, g)
+			vsched.Block("fsm", g, func() bool { return g.Released })
+		}
+	}
 	n.Insts++
 	n.Tr = &SimTransport{net: c.Net, node: n.Idx, inc: n.Inc, addr: n.Addr}
 	var hook StorageHook
@@ -380,12 +404,10 @@ func (c *Cluster) construct(n *Node) {
 		return
 	}
 	if err != nil {
-		if c.Cfg.FileStore {
-			n.Fatal = "NewRaft: " + err.Error()
-			n.ConstructErr = err.Error()
-			return
-		}
-		panic("INFRA: NewRaft: " + err.Error())
+		// the library refuses to come up over what it left in storage
+		n.Fatal = "NewRaft: " + err.Error()
+		n.ConstructErr = err.Error()
+		return
 	}
 	n.R = r
 }
@@ -461,6 +483,13 @@ func (c *Cluster) crash(i int) {
 	n.Inc++
 	vsched.NodeInc[i] = n.Inc
 	delete(c.Armed, i)
+	held := c.Held[:0:0]
+	for _, g := range c.Held {
+		if g.Node != i {
+			held = append(held, g)
+		}
+	}
+	c.Held = held
 	// Requests addressed to the dead process fail; requests it sent stay in
 	// the network but nobody waits for the answer.
 	for _, m := range append([]*Msg(nil), c.Net.Msgs...) {
@@ -794,6 +823,20 @@ func (c *Cluster) Inject1(e Event) error {
 		if err := c.applyPuppet(e); err != nil {
 			return err
 		}
+	case "fsm":
+		// the oldest state machine call in progress on the node finishes
+		done := false
+		for k, g := range c.Held {
+			if g.Node == e.N {
+				g.Released = true
+				c.Held = append(c.Held[:k:k], c.Held[k+1:]...)
+				done = true
+				break
+			}
+		}
+		if !done {
+			return fmt.Errorf("fsm: no state machine call in progress on n%d", e.N)
+		}
 	case "flush":
 		// deliver every deliverable message and reply, oldest first, until the
 		// network is quiet (scripted scenarios)
@@ -927,6 +970,24 @@ func (c *Cluster) timedEnabled() []Event {
 }
 
 func (c *Cluster) enabledAll() []Event {
+	ev := c.enabledAll1()
+	if len(c.Held) == 0 {
+		return ev
+	}
+	// a state machine call in progress finishes at once by default; anything
+	// else that happens first is a deviation
+	var first []Event
+	seen := map[int]bool{}
+	for _, g := range c.Held {
+		if !seen[g.Node] {
+			seen[g.Node] = true
+			first = append(first, Event{K: "fsm", N: g.Node})
+		}
+	}
+	return append(first, ev...)
+}
+
+func (c *Cluster) enabledAll1() []Event {
 	var ev []Event
 	if c.Cfg.Puppets {
 		ev = c.puppetEnabled()
